@@ -247,6 +247,54 @@ fn run_kats(_ctx: &Ctx, rec: &mut dyn FnMut(Value, Info)) -> Result<(), (String,
     Ok(())
 }
 
+fn huge_case(group: u64, ro: bool, ei: u64, n: usize) -> Result<(), String> {
+    let e = Expander::all()[ei as usize % 4];
+    let msg: Vec<u8> = (0..n).map(|i| (i as u32).wrapping_mul(2654435761).to_le_bytes()[1]).collect();
+    let dst = b"QUUX-V01-CS02-with-huge-message";
+    let ctx = format!("{} {} {:?} msg {} bytes", if group == 0 { "G1" } else { "G2" }, if ro { "hash_to_curve" } else { "encode_to_curve" }, e, n);
+    if group == 0 {
+        let want = if ro { h2c::hash_to_curve_g1(e, &msg, dst) } else { h2c::encode_to_curve_g1(e, &msg, dst) }.ok_or("model refused (harness bug)")?;
+        let gm = proj_m::<G1m>(&cr("hash", || crate_h2c_g1(e, ro, &msg, dst))?);
+        if gm != want {
+            return Err(format!("{}: crate {} but RFC 9380 gives {}", ctx, pt_brief(&gm), pt_brief(&want)));
+        }
+    } else {
+        let want = if ro { h2c::hash_to_curve_g2(e, &msg, dst) } else { h2c::encode_to_curve_g2(e, &msg, dst) }.ok_or("model refused (harness bug)")?;
+        let gm = proj_m::<G2m>(&cr("hash", || crate_h2c_g2(e, ro, &msg, dst))?);
+        if gm != want {
+            return Err(format!("{}: crate {} but RFC 9380 gives {}", ctx, pt_brief(&gm), pt_brief(&want)));
+        }
+    }
+    Ok(())
+}
+
+/// messages far beyond "long" (64 KiB .. 16 MiB, see c13::huge_lens) through the whole pipeline
+fn run_huge(ctx: &Ctx, rec: &mut dyn FnMut(Value, Info)) -> Result<(), (String, Value)> {
+    let lens = super::c13::huge_lens(ctx.tier);
+    let mut jobs = vec![];
+    for (k, n) in lens.iter().enumerate() {
+        // every length with two (group, mode, expander) combinations; all sixteen combinations are used
+        for d in 0..2u64 {
+            let j = 2 * k as u64 + d;
+            jobs.push((j % 2, (j / 2) % 2 == 0, (j / 4) % 4, *n));
+        }
+    }
+    let res = crate::engine::par_map(ctx.threads, jobs.len(), |i| huge_case(jobs[i].0, jobs[i].1, jobs[i].2, jobs[i].3));
+    for (i, r) in res.into_iter().enumerate() {
+        let case = json!({"huge": true, "group": jobs[i].0, "ro": jobs[i].1, "expander": jobs[i].2, "msg_len": jobs[i].3});
+        r.map_err(|m| (m, case.clone()))?;
+        let mut info = Info::default();
+        info.nt();
+        info.class(format!("huge-message:{}", if jobs[i].3 > (1 << 20) { ">1MiB" } else { "64KiB..1MiB" }));
+        rec(case, info);
+    }
+    Ok(())
+}
+
+fn replay_huge(v: &Value) -> Result<(), String> {
+    huge_case(v["group"].as_u64().unwrap_or(0), v["ro"].as_bool().unwrap_or(true), v["expander"].as_u64().unwrap_or(0), v["msg_len"].as_u64().unwrap_or(0) as usize)
+}
+
 fn replay_kats(v: &Value) -> Result<(), String> {
     kat_case(v["rfc_vector"].as_u64().unwrap_or(0))
 }
@@ -265,6 +313,7 @@ pub fn def() -> PropDef {
             Box::new(crate::engine::EnumSub { name: "long-history", rule: super::longhist::RULE, run: run_long_history, replay: super::longhist::replay, exhaustive: false }),
             Box::new(crate::engine::EnumSub { name: "two-input-bursts", rule: super::longhist::BURST_RULE, run: run_two_input_bursts, replay: super::longhist::replay_burst, exhaustive: false }),
             Box::new(EnumSub { name: "rfc-vectors", rule: "RFC 9380 J.9.1 (msg \"\" and abc), J.9.2 (msg \"\"), J.10.1 (msg \"\") through the crate (enumerated)", run: run_kats, replay: replay_kats, exhaustive: true }),
+            Box::new(EnumSub { name: "huge-messages", rule: "messages of 64 KiB .. 16 MiB (thorough: .. 256 MiB) around the sizes at which an implementation would absorb the message in pieces (2^16, 10^5, 2^17, 10^6, 2^20 +- 1, 2^20 + 12345, 2^21 + 1, 3 * 2^20 + 77777, 5 * 10^6 + 11, 2^24 + 1), two (group, mode, expander) combinations per length, through the whole pipeline vs the model", run: run_huge, replay: replay_huge, exhaustive: false }),
             Box::new(Sub { name: "g1", rule: "G1 suites vs model pipeline", quick: 3_600, thorough: 40_000, strategy: || boxed(h2c_strategy(0)), check: check_h2c }),
             Box::new(Sub { name: "g2", rule: "G2 suites vs model pipeline", quick: 1_500, thorough: 15_000, strategy: || boxed(h2c_strategy(1)), check: check_h2c }),
             Box::new(Sub { name: "related-inputs", rule: "a base input followed back to back by 1..4 related inputs (same msg / other dst, same dst / other msg, one byte appended, other expander, other mode, other group, same again), each compared with the model: the result depends only on (message, tag)", quick: 600, thorough: 15_000, strategy: || boxed(related_strategy()), check: check_related }),
